@@ -301,15 +301,8 @@ class Twin:
 
 # ------------------------------------------------------------------------------------------------- independent writer
 # specification side: class of the value universe -> definition name in the schemas (XSD group = lower-case first)
-CLASSMAP = {"ExternalReference": "Reference", "ModelReference": "Reference",
-            "DataSpecificationIEC61360": "DataSpecificationIec61360",
-            "MultiLanguageNameType": "LangStringNameType", "MultiLanguageTextType": "LangStringTextType",
-            "DefinitionTypeIEC61360": "LangStringDefinitionTypeIec61360",
-            "PreferredNameTypeIEC61360": "LangStringPreferredNameTypeIec61360",
-            "ShortNameTypeIEC61360": "LangStringShortNameTypeIec61360"}
-XSD_NAME = {"int": "xs:integer", "float": "xs:double", "Float": "xs:float", "str": "xs:string",
-            "relativedelta": "xs:duration", "datetime": "xs:dateTime", "time": "xs:time", "bool": "xs:boolean",
-            "Decimal": "xs:decimal"}
+CLASSMAP = schemas.CLASSMAP
+XSD_NAME = schemas.XSD_NAME
 LEVELS = ["min", "nom", "typ", "max"]
 
 
